@@ -11,6 +11,7 @@ package main
 
 import (
 	"fmt"
+	"maps"
 	"math/rand"
 	"os"
 	"reflect"
@@ -89,21 +90,58 @@ func withNeighbours(vals []uint32, highs []uint32) []uint32 {
 }
 
 func newInst(sys *sysDef, start int) *inst {
-	size := 0
-	for _, f := range sys.starts[start].fills {
-		size += f.n + 8
-	}
-	x := &inst{sys: sys, start: start, model: make(map[uint32]struct{}, size), cnt: map[uint32]int{}, dense: map[uint32]bool{}, last: "start-state"}
+	sd := &sys.starts[start]
+	x := &inst{sys: sys, start: start, last: "start-state"}
 	x.rnd = rand.New(&x.src)
-	for _, f := range sys.starts[start].fills {
-		p := patterns[f.pat]
-		for i := 0; i < f.n; i++ {
-			if !x.add(f.high<<16 | p.low(i)) {
-				return x
+	c := sd.cache
+	c.once.Do(func() {
+		c.model, c.cnt = map[uint32]struct{}{}, map[uint32]int{}
+		for _, f := range sd.fills {
+			for i := 0; i < f.n; i++ {
+				v := f.high<<16 | patterns[f.pat].low(i)
+				_, present := c.model[v]
+				c.expect = append(c.expect, !present)
+				if !present {
+					c.model[v] = struct{}{}
+					c.cnt[f.high]++
+				}
 			}
 		}
+		for v := range c.model {
+			c.sorted = append(c.sorted, v)
+		}
+		slices.Sort(c.sorted)
+	})
+	// the real object: one real Add per pre-fill value, each result compared
+	k := 0
+	var v uint32
+	var got bool
+	if !x.call("Add", func() {
+		for _, f := range sd.fills {
+			low := patterns[f.pat].low
+			for i := 0; i < f.n; i++ {
+				v = f.high<<16 | low(i)
+				if got = x.realAdd(v); got != c.expect[k] {
+					return
+				}
+				k++
+			}
+		}
+	}) {
+		x.model, x.cnt, x.dense = map[uint32]struct{}{}, map[uint32]int{}, map[uint32]bool{}
+		return x
 	}
-	x.last = "start-state"
+	x.model, x.cnt, x.dense = maps.Clone(c.model), maps.Clone(c.cnt), map[uint32]bool{}
+	for h, n := range x.cnt {
+		if n > threshold {
+			x.dense[h] = true
+			atomic.AddInt64(&cConversions, 1)
+		}
+	}
+	x.sorted, x.sortedOK = slices.Clone(c.sorted), true
+	if k < len(c.expect) {
+		x.fail("RoaringBitmap.Add|wrong-result|pre-fill", fmt.Sprintf("Add(%s) = %v, want %v at value number %d of the pre-fill (%s)", hex(v), got, c.expect[k], k+1, sd.desc))
+	}
 	return x
 }
 
@@ -120,7 +158,7 @@ func smallSystems(r *common.Run) []*sysDef {
 	var out []*sysDef
 	for _, hf := range heightFns {
 		out = append(out, &sysDef{r: r, name: "small/" + hf.name, hf: hf,
-			starts: []startDef{{desc: "zero value", vals: vals, probes: probes}}})
+			starts: []startDef{{cache: &startCache{}, desc: "zero value", vals: vals, probes: probes}}})
 	}
 	return out
 }
@@ -155,6 +193,7 @@ func thresholdSystems(r *common.Run, pats []int, hfs []heightFn, depth int) []*s
 					}
 					fills = append(fills, fill{dHigh, pi, n})
 					sys.starts = append(sys.starts, startDef{
+						cache:  &startCache{},
 						desc:   fmt.Sprintf("bucket 0x%04X pre-filled with %d values, pattern %s%s", dHigh, n, p.name, d),
 						fills:  fills,
 						vals:   vals,
@@ -180,6 +219,7 @@ func drainSystems(r *common.Run, pats []int, hfs []heightFn, depth int) []*sysDe
 				edge := []uint32{dHigh<<16 | p.low(0), dHigh<<16 | p.low(threshold), dHigh<<16 | 100, dHigh<<16 | (100 + threshold), dHigh << 16, dHigh<<16 | 65535}
 				fills = append(fills, fill{dHigh, pi, threshold + 1})
 				sys.starts = append(sys.starts, startDef{
+					cache:  &startCache{},
 					desc:   fmt.Sprintf("bucket 0x%04X pre-filled with %d values (dense), pattern %s%s", dHigh, threshold+1, p.name, d),
 					fills:  fills,
 					vals:   vals,
@@ -269,6 +309,12 @@ func trunc(s string) string {
 // ---------------------------------------------------------------- main
 
 func search(r *common.Run, d *sysDef) space.Result {
+	if e := os.Getenv("C03_DEPTH"); e != "" && d.maxDepth > 0 {
+		fmt.Sscan(e, &d.maxDepth)
+	}
+	if e := os.Getenv("C03_ONLY"); e != "" && !strings.Contains(d.name, e) {
+		return space.Result{Name: d.name}
+	}
 	sys := space.System{
 		Name:     d.name,
 		Starts:   len(d.starts),
@@ -312,7 +358,12 @@ func main() {
 
 	var results []space.Result
 	// (i) first and alone, so that the case kept for a signature is a shortest one
-	results = append(results, runAll(r, smallSystems(r), 1)...)
+	small := smallSystems(r)
+	w := r.Workers
+	r.Workers = 1 // the first system sequentially: the case kept for a signature is the same in every run
+	results = append(results, runAll(r, small[:1], 1)...)
+	r.Workers = w
+	results = append(results, runAll(r, small[1:], 1)...)
 
 	var defs []*sysDef
 	if r.Thorough() {
